@@ -102,6 +102,7 @@ func (b *validatedReaderBuffer) WithTask(task func() error) Buffer {
 	// This buffer is trivially cloneable, so we can run the task in
 	// the foreground.
 	if err := task(); err != nil {
+		b.Discard()
 		return NewBufferFromError(err)
 	}
 	return b
